@@ -61,6 +61,13 @@ THEOREMS = [
     "Verif.C01.bodyMatch_iff_rx",
     "Verif.C01.timeString_iff_rx",
     "Verif.C01.matchFull_accepts_iff_rx",
+    "Verif.C01.alignedStart_least",
+    "Verif.C01.cont_bounds_tight",
+    "Verif.C01.ts_bounds_tight",
+    "Verif.C01.getitem_getitem_spec",
+    "Verif.C01.chain_spec",
+    "Verif.C01.chain_perm",
+    "Verif.C01.chain_idem",
 ]
 RULE = (
     "corpus (F1, F6 inputs) + exhaustive small scope (n<=5 samples, dt in {1,2,3,5}, two starts, every window "
@@ -171,6 +178,12 @@ def make_item(a, b, via):
         from lumicks.pylake.force_calibration.calibration_item import ForceCalibrationItem
 
         return ForceCalibrationItem({"Start time (ns)": a, "Stop time (ns)": b})
+    if via == "tagslice":
+        # another channel slice used as the window (`force[photon_time_tags]`): its start/stop are the bounds
+        channel, _ = _lk()
+        if isinstance(a, int) and isinstance(b, int):
+            return channel.Slice(channel.TimeTags(np.array([], dtype=np.int64), a, b))
+        return Obj(a, b)
     raise ValueError(via)
 
 
@@ -636,7 +649,7 @@ def cases(tier, rng):
             yield dict(base, stream="small-scope", op="item", items=[{"t": "O", "a": a, "b": b, "via": "obj"}])
             if a is None or b is None or isinstance(a, dict) or isinstance(b, dict):
                 yield dict(base, stream="small-scope", op="item", items=[{"t": "S", "a": a, "b": b, "step": 1}])
-        for via in ("marker", "calib"):
+        for via in ("marker", "calib", "tagslice"):
             for a, b in itertools.product(args[:5], args[:5]):
                 yield dict(base, stream="small-scope", op="item", items=[{"t": "O", "a": a, "b": b, "via": via}])
         for what in SCALARS:
@@ -726,7 +739,7 @@ def cases(tier, rng):
                     w.append(sub.randint(min(ts) - 3 * dt, max(ts) + 3 * dt))
             windows.append(w)
             has_none_or_str = any(x is None or isinstance(x, dict) for x in w)
-            via.append(sub.choice(["slice", "slice", "obj", "marker", "calib"]))
+            via.append(sub.choice(["slice", "slice", "obj", "marker", "calib", "tagslice"]))
         case.update({"stream": "random", "op": "get", "windows": windows, "via": via, "subseed": i})
         yield case
     # random chains of 1-3 items through the whole Slice.__getitem__ (windows with every kind of bound, masks,
@@ -782,7 +795,7 @@ def cases(tier, rng):
                         w.append(sub.randint(0, 50))
                 it = {"t": sub.choice(["S", "S", "O"]), "a": w[0], "b": w[1]}
                 if it["t"] == "O":
-                    it["via"] = sub.choice(["obj", "marker", "calib"])
+                    it["via"] = sub.choice(["obj", "marker", "calib", "tagslice"])
                 elif sub.chance(0.05):
                     it["step"] = sub.choice([1, 2, -1])
                 items.append(it)
